@@ -9,10 +9,22 @@ I = z3.IntSort()
 OUT = z3.Array("outcome", I, I)      # 0 returns, 1 ConstructError, 2 ValueError   (a function of the payload)
 DV = z3.Array("dictof", I, I)        # stand-in for the dictionary decoder k returns
 OUT_R = z3.Int("outcome_p1_readout"); DV_R = z3.Int("dictof_p1_readout")   # dlde.decode_p1_readout(readout)
+EMPTY = z3.Function("dict_is_empty", I, z3.BoolSort())   # a decoder may accept a payload and return an empty dictionary (the P1 decoder does for blocks without single-valued data sets)
+
+class ADict:
+    """the dictionary a decoder returned: an abstract identity; truthiness = not empty; never None"""
+    def __init__(s, ident): s.ident = ident
 
 def mk_engine(repo):
     eng = Engine({"han.common": f"{repo}/han/common.py", "han.autodecoder": f"{repo}/han/autodecoder.py"})
     eng.exc_parents["construct.ConstructError"] = "Exception"
+    import pyvc.engine as E
+    if not getattr(E, "_adict_patched", False):
+        _tb = E.to_bool
+        def to_bool2(v):
+            if isinstance(v, ADict): return z3.Not(EMPTY(v.ident))
+            return _tb(v)
+        E.to_bool = to_bool2; E._adict_patched = True
     return eng
 
 def table(eng):
@@ -26,11 +38,11 @@ def install_decoders(eng, T):
     for k, (name, (_, dotted)) in enumerate(T):
         def dec(e, st, args, kw, ctx, node, k=k):
             a = st.fork(); a.pc.append(OUT[k] == 0); b = st.fork(); b.pc.append(OUT[k] != 0)
-            return [(x, y) for x, y in ((a, SInt(DV[k])), (b, Raised(REJ, f"decoder {k}"))) if e.feasible(x)]
+            return [(x, y) for x, y in ((a, ADict(DV[k])), (b, Raised(REJ, f"decoder {k}"))) if e.feasible(x)]
         eng.py_calls[dotted] = dec
     def dec_r(e, st, args, kw, ctx, node):
         a = st.fork(); a.pc.append(OUT_R == 0); b = st.fork(); b.pc.append(OUT_R != 0)
-        return [(x, y) for x, y in ((a, SInt(DV_R)), (b, Raised(REJ, "decode_p1_readout"))) if e.feasible(x)]
+        return [(x, y) for x, y in ((a, ADict(DV_R)), (b, Raised(REJ, "decode_p1_readout"))) if e.feasible(x)]
     eng.py_calls["han.dlde.decode_p1_readout"] = dec_r
 
 def selection_post(N, isn0, pv0, res, new, out_of, dv_of):
@@ -43,9 +55,11 @@ def selection_post(N, isn0, pv0, res, new, out_of, dv_of):
                 ("previous_success_decoder unchanged by a payload nobody accepts", z3.And(new_isn == isn0, z3.Implies(z3.Not(isn0), new_val == pv0)))]
     # taken from the statement: the result is that of *a* decoder that accepts the payload, and that decoder is the one remembered;
     # the most recently successful decoder is used whenever it accepts (no particular try-order is demanded for the others)
-    some = z3.Or(*[z3.And(out_of(k) == 0, to_int(res) == dv_of(k), z3.Not(new_isn), new_val == k) for k in range(N)])
+    rid = res.ident if isinstance(res, ADict) else None
+    if rid is None: return [("result is a dictionary returned by a decoder", z3.BoolVal(False))]
+    some = z3.Or(*[z3.And(out_of(k) == 0, rid == dv_of(k), z3.Not(new_isn), new_val == k) for k in range(N)])
     return [("result is the dictionary of a decoder that accepts the payload, and previous_success_decoder names that decoder", some),
-            ("the most recently successful decoder wins whenever it accepts", z3.And(*[z3.Implies(z3.And(z3.Not(isn0), pv0 == k, out_of(k) == 0), z3.And(to_int(res) == dv_of(k), new_val == k)) for k in range(N)]))]
+            ("the most recently successful decoder wins whenever it accepts", z3.And(*[z3.Implies(z3.And(z3.Not(isn0), pv0 == k, out_of(k) == 0), z3.And(rid == dv_of(k), new_val == k)) for k in range(N)]))]
 
 def autodecoder_obligations(eng):
     T = table(eng); N = len(T); install_decoders(eng, T)
@@ -60,7 +74,8 @@ def autodecoder_obligations(eng):
         st.pc += [isn == z3.BoolVal(prev is None), pv == (prev if prev is not None else 0)]
         return st.new_obj(A, {F: prev})
     wit = lambda m: {"prev": None if z3.is_true(m.eval(isn, model_completion=True)) else m.eval(pv, model_completion=True).as_long(),
-                     "outcomes": [m.eval(OUT[k], model_completion=True).as_long() for k in range(N)], "outcome_readout": m.eval(OUT_R, model_completion=True).as_long()}
+                     "outcomes": [m.eval(OUT[k], model_completion=True).as_long() for k in range(N)], "outcome_readout": m.eval(OUT_R, model_completion=True).as_long(),
+                     "empty": [z3.is_true(m.eval(EMPTY(DV[k]), model_completion=True)) for k in range(N)]}
     # __init__
     def init_init(e):
         st = State(); yield st, [st.new_obj(A, {})]
@@ -116,6 +131,7 @@ def autodecoder_obligations(eng):
         for x in o: x.meta.update(replay="replay_auto", witness=wit)
         obls += o
     obls.append(Obligation("canary.first_decoder_always_wins", [z3.Not(isn), pv == 2, OUT[2] == 0, OUT[0] == 0], DV[0] == DV[2], kind="canary", expect_refuted=True))
+    for k in range(N): pass
     return obls, T
 
 def group_auto(repo):
